@@ -77,6 +77,24 @@ class Call:
         return out
 
 
+def prefit(e, X, rng, **kw):
+    """Half of the time the estimator has already been fitted on OTHER data
+    (different size) before the fit that is checked: a fit must not depend
+    on, or be polluted by, an earlier one."""
+    if rng.random() < 0.5:
+        n0 = int(rng.integers(2, 30))
+        X0 = (rng.normal(size=(n0, X.shape[1])) * 7).astype(X.dtype)
+        X0 = X0[np.sort(np.unique(X0, axis=0, return_index=True)[1])]
+        try:
+            e.fit(np.ascontiguousarray(X0))
+        except Exception:  # noqa
+            pass
+    before = {k: v for k, v in vars(e).items() if k in (
+        'n_clusters', 'cluster_radius', 'n_iters', 'kmedoids_updates',
+        'mpi_mode')}
+    return before
+
+
 def run_entry(entry, X, metric_name, rng, p, calls):
     """Execute one entry form.  Returns (result, expect_k or None)."""
     def do(fn, *a, **k):
@@ -99,7 +117,10 @@ def run_entry(entry, X, metric_name, rng, p, calls):
             e = kcenters.KCenters(m, n_clusters=k)
         else:
             e = kcenters.KCenters(m, cluster_radius=p['r'], n_clusters=k)
+        pb = prefit(e, X, rng)
         do(e.fit, X)
+        p['params_changed'] = pb != {k_: v for k_, v in vars(e).items()
+                                     if k_ in pb}
         return util.ClusterResult(
             center_indices=e.center_indices_, distances=e.distances_,
             assignments=e.labels_, centers=e.centers_), None
@@ -146,6 +167,7 @@ def run_entry(entry, X, metric_name, rng, p, calls):
                   random_state=seed), k
     if entry == 'KM_est':
         e = kmedoids.KMedoids(m, n_clusters=k, n_iters=iters)
+        prefit(e, X, rng) if k <= 2 else None
         if rng.random() < 0.5:
             do(e.fit, X)
         else:
@@ -162,7 +184,10 @@ def run_entry(entry, X, metric_name, rng, p, calls):
     if entry == 'HY_est':
         e = hybrid.KHybrid(m, n_clusters=k, kmedoids_updates=iters,
                            random_state=seed, mpi_mode=False)
+        pb = prefit(e, X, rng) if k <= 2 else None
         do(e.fit, X)
+        p['params_changed'] = pb is not None and pb != {
+            k_: v for k_, v in vars(e).items() if k_ in pb}
         return util.ClusterResult(
             center_indices=e.center_indices_, distances=e.distances_,
             assignments=e.labels_, centers=e.centers_), k
@@ -216,6 +241,9 @@ def run_case(ctx, kind, rng, idx):
         ctx.crash('cluster.%s.raised' % entry, e)
         return
     ctx.count('results_checked')
+    if p.get('params_changed'):
+        ctx.violation('cluster.%s.fit-rewrites-parameter' % entry,
+                      'fit() changed a constructor parameter of the estimator')
     for c in calls:
         if c.changed:
             ctx.violation('cluster.%s.mutates-input' % entry,
